@@ -137,6 +137,8 @@ def first_diff(a, b):
     return None
 
 # ----------------------------------------------------------------------------- one proposition
+import common as _common
+@_common.guarded(lambda e, *a, **k: f"a call on the model or on its unpacked copy raised {type(e).__name__}: {str(e)[:160]}")
 def check_prop(res, rng, ast, names, payload=None):
     """returns None if fine, else a description"""
     m = build(ast)
